@@ -1,6 +1,6 @@
 (* C11 — Authenticated room API requests of any shape are answered, never fatal.
-   Only statements here; proofs are in proofs/RoomApi_proofs.v (+ Decode_proofs.v,
-   Decode_depth.v).  The model (model/RoomApi.v, [step true]) is the code with
+   Only statements here; proofs are in proofs/RoomApi_proofs.v, proofs/RoomApi_nobody.v
+   (+ Decode_proofs.v, Decode_depth.v).  The model (model/RoomApi.v, [step true]) is the code with
    fixes/C11/01 applied; [step false] is the code as found.
 
    Quantifiers: [b : body] is every request body (text that is not JSON, or any
@@ -10,7 +10,7 @@
    behind the checksum gate, which is C02's). *)
 From Coq Require Import List ZArith NArith String Bool Lia.
 From Verif Require Import gen.Params gen.Schema lib.Json lib.Decode model.RoomApi corr.Run_C11
-  proofs.Decode_proofs proofs.Decode_depth proofs.RoomApi_proofs.
+  proofs.Decode_proofs proofs.Decode_depth proofs.RoomApi_proofs proofs.RoomApi_nobody.
 Import ListNotations.
 Open Scope string_scope.
 
@@ -82,6 +82,33 @@ Theorem C11_no_state_request_silent : forall st b, names_no_state b = true ->
   no_events st (o_pubs (snd (step true st b))).
 Proof. exact names_no_state_silent. Qed.
 
+(* (3c) The same sentence for "incall" (all not true) and "participants" requests whose
+   "users" / "changed" lists name nobody ([names_nobody known] of corr/Run_C11.v, from the API
+   documentation): no entry with a string "sessionId" other than "0" that is the room session id
+   of a session the server knows ([known_of st]: the ids of the state's room-session table) -
+   entries without "sessionId", with one of another kind, "0", unknown ids, entries that are
+   not objects, lists missing / null / empty.  Whatever the state - room existing or not,
+   participants in the call or not - the request is answered (200, or 400 when the document does
+   not decode), nothing panics, the state is unchanged and nothing at all is published: no
+   event for anybody and the room's participant list stays what it was.  No hypothesis. *)
+Theorem C11_names_nobody_request_silent : forall st b, names_nobody (known_of st) b = true ->
+  exists c, (c = 200 \/ c = 400)%Z /\
+            step true st b = (st, {| o_reply := Status c; o_exit := false; o_pubs := [] |}).
+Proof. exact names_nobody_silent. Qed.
+
+(* ... in the form the trace predicate P_C11 uses it: [run_known] is the one room session id of
+   the harness fixture; requests never add ids ([after st bs]: the state after the history bs),
+   and the class only grows when ids disappear.  So at every point of every history from either
+   fixture state a request of the class [names_nobody run_known] is silent. *)
+Theorem C11_names_nobody_history_silent : forall ex num bs b, names_nobody run_known b = true ->
+  exists c, (c = 200 \/ c = 400)%Z /\
+            step true (after (fixture ex num) bs) b =
+              (after (fixture ex num) bs, {| o_reply := Status c; o_exit := false; o_pubs := [] |}).
+Proof. exact names_nobody_fixture. Qed.
+
+Theorem C11_names_nobody_monotone : forall k k' b, incl k' k -> names_nobody k b = true -> names_nobody k' b = true.
+Proof. exact names_nobody_mono. Qed.
+
 (* The code as found violates (1) and (2): the three confirmed defects. *)
 Theorem C11_answered_refuted_unrepaired : exists st b, o_reply (snd (step false st b)) = NoReply.
 Proof. exists wst, w_invite. exact unrepaired_no_reply. Qed.
@@ -129,6 +156,18 @@ Example C11_nonvacuous_no_state :
   forallb (fun b => match o_reply (snd (step true (with_incall wst [fixture_sid]) b)) with Status 200 => true | _ => false end) ex_no_state = true.
 Proof. exact ex_no_state_ok. Qed.
 
+(* four requests of the third class (the one of the seeded change's report: entries without
+   "sessionId", with a number, with "0"; a single empty entry; the same for "participants"; a
+   permissions entry for "0"): in the class, not [malformed], answered 200 with the fixture's
+   session in the call; the first one with one valid entry added is outside the class and the
+   client receives the participants update *)
+Example C11_nonvacuous_names_nobody :
+  forallb (names_nobody run_known) ex_nobody = true /\ forallb (fun b => negb (malformed b)) ex_nobody = true /\
+  forallb (fun b => match o_reply (snd (step true (with_incall wst [fixture_sid]) b)) with Status 200 => true | _ => false end) ex_nobody = true /\
+  names_nobody run_known ex_somebody = false /\
+  events_for wst fixture_sid (o_pubs (snd (step true wst ex_somebody))) = [KParticipants 1].
+Proof. exact ex_nobody_ok. Qed.
+
 Print Assumptions C11_schema.
 Print Assumptions C11_answered_never_fatal.
 Print Assumptions C11_history_never_fatal.
@@ -138,6 +177,9 @@ Print Assumptions C11_other_status_cases.
 Print Assumptions C11_room_api_total_refuted.
 Print Assumptions C11_malformed_silent.
 Print Assumptions C11_no_state_request_silent.
+Print Assumptions C11_names_nobody_request_silent.
+Print Assumptions C11_names_nobody_history_silent.
+Print Assumptions C11_names_nobody_monotone.
 Print Assumptions C11_answered_refuted_unrepaired.
 Print Assumptions C11_status_refuted_unrepaired.
 Print Assumptions C11_never_fatal_refuted_unrepaired.
